@@ -4,7 +4,7 @@
 
 use serde_json::{Value, json};
 use vrp_core::construction::heuristics::*;
-use vrp_core::models::problem::Job;
+use vrp_core::models::problem::{Job, VehicleIdDimension};
 use vrp_core::rosomaxa::utils::ThreadPool;
 use vrp_verif_harness::evalcase::*;
 use vrp_verif_harness::evalgen::*;
@@ -15,7 +15,9 @@ const POOLS: &[usize] = &[1, 2, 3, 4, 8, 16];
 
 fn gen_cases(rng: &mut Rng, tier: Tier) -> Vec<Value> {
     let n = if tier == Tier::Thorough { 6000 } else { 400 };
-    (0..n).map(|_| gen_multi_route_case(rng, true)).collect()
+    // VERIF_C15_NONMETRIC=1 (development only): search for witnesses of the known finding S9
+    let metric = std::env::var("VERIF_C15_NONMETRIC").is_err();
+    (0..n).map(|_| gen_multi_route_case(rng, metric)).collect()
 }
 
 fn cost_json(res: &InsertionResult) -> Value {
